@@ -91,14 +91,26 @@ def install(interp, ns):
     def py_tuple(x=()):
         if isinstance(x, SArr) and x.ndim == 1 and concrete_int(x.shape[0]) is not None: return tuple(x.tolist())
         return tuple(interp.iterate(x))
+    def py_getattr(o, a, *d):
+        """getattr(o, name[, default]): the default is returned when the attribute does not exist (AttributeError), as in Python"""
+        try: return interp.getattr(o, a)
+        except PyRaise as ex:
+            if d and getattr(ex.exc, "name", None) == "AttributeError": return d[0]
+            raise
     ns.update({"len": B(py_len), "min": B(py_min), "max": B(py_max), "range": B(py_range), "isinstance": B(py_isinstance),
                "hasattr": B(py_hasattr), "float": B(py_float), "int": int, "abs": B(py_abs), "sum": B(py_sum), "any": B(py_any),
                "all": B(py_all), "tuple": B(py_tuple), "list": B(lambda x=(): x if (isinstance(x, SArr) and not x.is_concrete_shape()) else list(interp.iterate(x))), "zip": B(lambda *xs: list(zip(*[interp.iterate(x) for x in xs]))),
                "enumerate": B(lambda x: list(enumerate(interp.iterate(x)))), "str": str, "bool": B(lambda x: interp.truth(x)), "dict": dict,
                "print": B(lambda *a, **k: None), "slice": slice, "True": True, "False": False, "None": None, "property": "property",
-               "classmethod": "classmethod", "staticmethod": "staticmethod", "callable": callable, "getattr": B(lambda o, a, *d: interp.getattr(o, a)),
+               "classmethod": "classmethod", "staticmethod": "staticmethod", "callable": callable, "getattr": B(py_getattr),
                "reversed": B(lambda x: list(reversed(interp.iterate(x)))), "round": round, "repr": repr, "type": type, "id": id, "object": object})
     ns["int"] = B(py_int); ns["float"] = B(py_float)
+    def py_sorted(x, reverse=False):
+        xs = list(interp.iterate(x))
+        if any(is_z3(v) and concrete_int(v) is None for v in xs): raise Unsupported("sorted() of symbolic values")
+        return sorted([concrete_int(v) if is_z3(v) else v for v in xs], reverse=reverse)
+    def py_divmod(a, b): return (interp.binop("FloorDiv", a, b), interp.binop("Mod", a, b))
+    ns["sorted"] = B(py_sorted, "sorted"); ns["divmod"] = B(py_divmod, "divmod")
     # marker types for isinstance
     ns["int"].pytype = int
     class _T:  # isinstance(x, int) receives Builtin objects; map them back
